@@ -59,6 +59,10 @@ class Variables:
         self._variables.pop(name)
 
     def inline_variables(self, sql: str) -> str:
+        # variables are referenced in SQL text proper, never inside string literals, quoted identifiers or comments
+        return "".join(text if protected else self._inline(text) for protected, text in _split_protected(sql))
+
+    def _inline(self, sql: str) -> str:
         for name, value in self._variables.items():
             # match the whole variable name only (ie: not $var1 in $var10) and insert the value verbatim
             # (ie: not as a regex template in which backslashes are special)
@@ -69,3 +73,44 @@ class Variables:
                 msg=f"Session variable '{remaining_variables.group().upper()}' does not exist"
             )
         return sql
+
+
+def _split_protected(sql: str) -> list[tuple[bool, str]]:
+    """Split sql into (protected, text) pieces, where protected pieces are the complete 'string literals',
+    "quoted identifiers", $$dollar-quoted strings$$, -- comments and /* comments */. Unterminated ones are not protected.
+    """
+    pieces: list[tuple[bool, str]] = []
+    start = i = 0
+    n = len(sql)
+    while i < n:
+        end = -1
+        c = sql[i]
+        if c in ("'", '"'):
+            j = i + 1
+            while j < n:
+                if c == "'" and sql[j] == "\\":
+                    j += 2  # backslash escape
+                elif sql[j] != c:
+                    j += 1
+                elif j + 1 < n and sql[j + 1] == c:
+                    j += 2  # doubled quote
+                else:
+                    end = j + 1
+                    break
+        elif sql.startswith("$$", i):
+            j = sql.find("$$", i + 2)
+            end = j + 2 if j >= 0 else -1
+        elif sql.startswith("--", i):
+            j = sql.find("\n", i)
+            end = j if j >= 0 else n
+        elif sql.startswith("/*", i):
+            j = sql.find("*/", i + 2)
+            end = j + 2 if j >= 0 else -1
+        if end < 0:
+            i += 1
+            continue
+        pieces.append((False, sql[start:i]))
+        pieces.append((True, sql[i:end]))
+        start = i = end
+    pieces.append((False, sql[start:]))
+    return pieces
